@@ -244,6 +244,49 @@ pub fn family(fam: usize, n: usize) -> (Vec<u8>, &'static str) {
             }
             (p, "mixed-ladder(rejected)")
         }
+        9 => {
+            // OPT with a dense list of empty options whose codes are all different
+            let k = (budget.saturating_sub(11) / 4).min(16383);
+            let mut p = hdr(0x8000, nl, 0, 1);
+            p.extend_from_slice(&body);
+            p.extend_from_slice(&[0, 0, 41, 0x10, 0, 0, 0, 0, 0]);
+            p.extend_from_slice(&((4 * k) as u16).to_be_bytes());
+            for i in 0..k {
+                p.extend_from_slice(&(i as u16).to_be_bytes());
+                p.extend_from_slice(&[0, 0]);
+            }
+            (p, "dense-options-distinct-codes")
+        }
+        10 => {
+            // the smallest legal records (root owner, no data: 11 bytes each), all of different types
+            let k = n.saturating_sub(12 + 5) / 11;
+            let a = k.min(65535);
+            let b = (k - a).min(65535);
+            let c = (k - a - b).min(65535);
+            let mut p = hdr(0x8000, a, b, c);
+            p.extend_from_slice(&[0, 0, 1, 0, 1]);
+            for i in 0..(a + b + c) {
+                p.push(0);
+                // types 256.. : opaque to the parser (none of them is a name-bearing type or OPT)
+                p.extend_from_slice(&((256 + (i % 60000)) as u16).to_be_bytes());
+                p.extend_from_slice(&[0, 1, 0, 0, 0, 0, 0, 0]);
+            }
+            (p, "dense-minimal-records")
+        }
+        11 => {
+            // records with pairwise different literal two-label owners (nothing repeats, nothing is shared)
+            let k = n.saturating_sub(12 + 5) / 17;
+            let a = k.min(65535);
+            let b = (k - a).min(65535);
+            let c = (k - a - b).min(65535);
+            let mut p = hdr(0x8000, a, b, c);
+            p.extend_from_slice(&[0, 0, 1, 0, 1]);
+            for i in 0..(a + b + c) {
+                p.extend_from_slice(&[2, b'a' + (i % 26) as u8, b'a' + ((i / 26) % 26) as u8, 2, b'a' + ((i / 676) % 26) as u8, b'a' + ((i / 17576) % 26) as u8, 0]);
+                p.extend_from_slice(&[0, 16, 0, 1, 0, 0, 0, 0, 0, 0]);
+            }
+            (p, "distinct-literal-owners")
+        }
         _ => {
             // MX records: 2-byte preference + chained name
             let k = budget / 16;
@@ -260,7 +303,7 @@ pub fn family(fam: usize, n: usize) -> (Vec<u8>, &'static str) {
     }
 }
 
-pub const NFAM: usize = 9;
+pub const NFAM: usize = 12;
 
 fn bound_check(bytes: &[u8], what: &str, st: &mut Stats) -> PResult {
     let (s, ok) = match steps_of(bytes) {
@@ -344,7 +387,7 @@ pub fn replay_c18(data: &[u8]) -> PResult {
 pub fn check_c18(ctx: &Ctx, known: &KnownFindings) -> Report {
     let mut rep = Report::new("C18");
     let ks = known_sigs(known, "C18");
-    rep.rule = format!("step counter (verif_hooks: one step per label/pointer followed, per record, per question, per EDNS option) across DNSSector::parse. Deterministic part: 9 adversarial families (16-pointer chains into a 255-byte name as owner / NS / SOA / MX names, maximal literal names, dense empty options) at sizes 64 .. 65535 .. 200000 (thorough: .. 1 MB), each accepted by the parser. Generated part: the C01 input stream and the families at drawn sizes with 1-3 damaged bytes. Oracle: steps <= {}*len + {} for every input, and per family ratio(len ~65535) <= 1.25*ratio(len ~4096) + 1 (no super-linear growth). Non-trivial: the parser executes >= len steps; distinct = hash of input.", SLOPE, CONST);
+    rep.rule = format!("step counter (verif_hooks: one step per label/pointer followed, per record, per question, per EDNS option) across DNSSector::parse. Deterministic part: 12 adversarial families (16-pointer chains into a 255-byte name as owner / NS / SOA / MX names, maximal literal names, dense empty options with one code and with pairwise different codes, 11-byte records of pairwise different types, pairwise different literal owners, three rejected ladder/huge-name shapes) at sizes 64 .. 65535 .. 200000 (thorough: .. 1 MB), each accepted by the parser. Generated part: the C01 input stream and the families at drawn sizes with 1-3 damaged bytes. Oracle: steps <= {}*len + {} for every input, and per family ratio(len ~65535) <= 1.25*ratio(len ~4096) + 1 (no super-linear growth). Non-trivial: the parser executes >= len steps; distinct = hash of input.", SLOPE, CONST);
     rep.assumptions = vec![
         "the counter measures the instrumented validator loops only (name walkers, option loop, per-record/per-question entry); an un-instrumented new loop would be invisible here".into(),
         "constant 32 derives from the policy: <= 16 pointers + <= 128 labels per name walk, densest legal packing two chained names per 14-byte NS record (~20.7 steps/byte)".into(),
@@ -398,6 +441,6 @@ pub fn check_c18(ctx: &Ctx, known: &KnownFindings) -> Report {
     let prop = (1200usize, c18_case);
     let r = drive(&prop, ctx.cases(150_000, 3_000_000), ctx, 18, &ks);
     rep.absorb(r);
-    rep.require(&["stream:valid", "stream:damaged", "stream:raw", "stream:long", "deterministic:accepted", "family:chain16-ns", "family:chain16-ns+damage", "family:dense-options"]);
+    rep.require(&["stream:valid", "stream:damaged", "stream:raw", "stream:long", "deterministic:accepted", "family:chain16-ns", "family:chain16-ns+damage", "family:dense-options", "family:dense-options-distinct-codes", "family:dense-minimal-records", "family:distinct-literal-owners"]);
     rep
 }
